@@ -32,6 +32,24 @@ PREBUILT = []      # a judge may hand over an already built object (e.g. one who
 def mk_rel(ms):
     if PREBUILT:
         return PREBUILT.pop(0)
+    return _mk_rel(ms)
+
+
+def mk_rel_junk(ms):
+    """like mk_rel, but in some cases the non-wait messages keep a (meaningless) time, as messages taken over from an
+    absolute view do: in a relative list only waits count.  Used for pad and Bar only -- the MIDI writer does add up
+    every time it finds, so such lists are outside its contract"""
+    if PREBUILT:
+        return PREBUILT.pop(0)
+    s_ = _mk_rel(ms)
+    if len(ms) % 3 == 1:
+        for m in s_._rel._messages:
+            if m.message_type != MT.WAIT:
+                m.time = 7
+    return s_
+
+
+def _mk_rel(ms):
     return Sequence(relative_sequence=RelativeSequence(messages=[to_message(m, rel=True) for m in ms]))
 
 
@@ -157,7 +175,7 @@ def _gen_pad(r):
 
 def _impl_pad(inp):
     ms, p = inp
-    s = mk_rel(ms)
+    s = mk_rel_junk(ms)
     s.pad(p)
     return show_msgs(rel_of(s))
 
@@ -214,6 +232,11 @@ Op("scale", _gen_scale, _impl_scale, _coq_scale)
 # ---------------------------------------------------------------------------------------------- transpose
 def _gen_transpose(r):
     ms = G.gen_rel_wf(r)
+    if r.random() < 0.2:      # ill-formed streams (orphan note-offs, unclosed notes), also next to the range limits
+        ms = G.gen_rel_malformed(r)
+        if r.random() < 0.6:
+            sub = {60: 107, 61: 22, 62: 60}
+            ms = [m[:4] + (sub.get(m[4], m[4]),) + m[5:] for m in ms]
     k = r.choice([0, 1, -1, 2, 7, 12, -12, 24, 11, 13, -13, 40, -40, 88, 89, -88, 100, -130, 130, r.randint(-130, 130)])
     return ms, k
 
@@ -301,7 +324,7 @@ def _gen_cutoff(r):
             c, p, t = r.choice([0, 1]), r.choice([60, 61]), G.tick(r, 40)
             ms.append(ON(c, p, 100, t) if r.random() < 0.5 else OFF(c, p, t))
     m = r.choice([6, 12, 24, 11, 13, 30, 1])
-    return ms, m, r.choice([m, max(1, m - 1), 1, max(1, m // 2), 6])
+    return ms, m, r.choice([m, max(1, m - 1), 1, max(1, m // 2), 6, 0])        # 0: over-long notes collapse onto their onset
 
 
 def _impl_cutoff(inp):
@@ -541,7 +564,7 @@ def show_sig(n, d, k):
 
 def _impl_bar(inp):
     ms, num, den = inp
-    s = mk_rel(ms)
+    s = mk_rel_junk(ms)
     try:
         b = Bar(s, num, den)
     except Exception as e:
@@ -567,15 +590,18 @@ Op("bar", _gen_bar, _impl_bar, _coq_bar)
 def gen_piece_tracks(r, ntracks=None, aligned=True):
     """tracks (relative lists); time signatures on bar boundaries of the running grid, on the meta track"""
     ntracks = ntracks or r.choice([1, 1, 2, 3])
-    nbars = r.randint(0, 4)
+    nbars = r.randint(0, 4) if r.random() < 0.85 else r.randint(4, 7)
     sig, t, metas = (4, 4), 0, []
     bounds = []
+    key, restate = None, r.random() < 0.3      # restate: sections joined with concatenate restate the key in force
     for b in range(nbars):
         if r.random() < (0.5 if b == 0 else 0.3):
             sig = r.choice(G.SIGS)
             metas.append(TS(0, sig[0], sig[1], t))
-        if r.random() < 0.25:
-            metas.append(KS(0, r.choice(G.KEYS), t if aligned or r.random() < 0.5 else t + 1))
+        if r.random() < (0.6 if restate else 0.25):
+            if not (restate and key is not None and r.random() < 0.5):
+                key = r.choice(G.KEYS)
+            metas.append(KS(0, key, t if aligned or r.random() < 0.5 else t + 1))
         bounds.append(t)
         t += sig[0] * 96 // sig[1]
     total = t
@@ -629,6 +655,12 @@ def _impl_util(inp):
     from scoda.misc import util
     kind, a = inp
     if kind == "defaults":
+        # the returned lists belong to the caller: editing them must not change what later calls return
+        for f_ in (util.get_default_note_values, util.get_default_step_sizes, util.get_velocity_bins):
+            l_ = f_()
+            l_.sort()
+            l_.append(999)
+            del l_[0]
         return ",".join(map(str, util.get_default_note_values())) + "/" + ",".join(map(str, util.get_default_step_sizes())) + \
             "/" + ",".join(map(str, util.get_default_step_sizes(lower_bound_shift=1)))
     if kind == "vbins":
@@ -861,12 +893,19 @@ def track_rel_lit(ms, how):
     return f"(to_rel {INS(_abs_of_track(ms, how))})"
 
 
+def init_state(inp):
+    """inp[3]: running values (track, value, velocity) an earlier call -- possibly of another tokeniser -- left in the state"""
+    if len(inp) > 3 and inp[3] is not None:
+        return {"prv_track": inp[3][0], "prv_value": inp[3][1], "prv_velocity": inp[3][2]}
+    return {}
+
+
 def _impl_roundtrip_tok(inp):
     cfg, tracks = inp[0], inp[1]
     hows = inp[2] if len(inp) > 2 else ["rel"] * len(tracks)
     t = mk_tok(cfg)
     seqs = [mk_track(ms, h) for ms, h in zip(tracks, hows)]
-    sd = {}
+    sd = init_state(inp)
     toks = t.tokenise(seqs, state_dict=sd)
     out = " ".join(toks) + "#" + show_state(sd) + "#"
     try:
@@ -893,11 +932,16 @@ def _gen_rt(r):
     # tracks without a trailing rest can be handed over through the absolute view as well
     hows = [r.choice(["rel", "rel", "abs", "abs0", "read", "absmix"]) if not (ms and ms[-1][0] == "WAIT") else r.choice(["rel", "read"])
             for ms in tracks]
-    return cfg, tracks, hows
+    st = None
+    if r.random() < 0.15:
+        st = (r.choice([-1, 0, 1, cfg[0] - 1, 7]), r.choice([-1, 12, 24, 36, 5, 48, 6]), r.choice([-1, 127, 64, 100, 8]))
+    return cfg, tracks, hows, st
 
 
 Op("tok_roundtrip", _gen_rt, _impl_roundtrip_tok,
-   lambda inp: f"roundtrip {lit_cfg(inp[0])} [" + "; ".join(track_rel_lit(ms, h) for ms, h in zip(inp[1], inp[2])) + "]",
+   lambda inp: (f"roundtrip {lit_cfg(inp[0])} [" if len(inp) < 4 or inp[3] is None else
+                f"roundtrip_from {lit_cfg(inp[0])} {z(inp[3][0])} {z(inp[3][1])} {z(inp[3][2])} [")
+   + "; ".join(track_rel_lit(ms, h) for ms, h in zip(inp[1], inp[2])) + "]",
    lambda inp: sum(len(t) for t in inp[1]) > 4)
 
 
@@ -1176,7 +1220,7 @@ def gen_history(r, nsteps=None, two_sided=False):
                 es.append((j, f, v))
             # peek: read the OTHER view while holding a yielded message, then edit it (the per-yield invalidation
             # exists to make exactly this safe); the model op is the same with or without peeking
-            ops.append((k, i, es, r.random() < 0.4))
+            ops.append((k, i, es, r.random() < 0.4, r.random() < 0.35))
         elif k in ("OBarInit", "OBarCopy"):
             ops.append((k, i) + r.choice([(4, 4), (4, 4), (3, 4), (6, 8), (2, 2)]))
             if k == "OBarCopy":
@@ -1289,20 +1333,26 @@ def _exec(ops, upto=None, trace=True, return_store=False, hook=None):
                 out = str(int(d_) if isinstance(d_, float) and d_.is_integer() else d_)
             elif k == "OEditAbs":
                 peek = len(o) > 3 and o[3]
+                last = max([j for j, _, _ in o[2]] + [-1]) if len(o) > 4 and o[4] else None     # leave the loop right after the last edit
                 for idx, m in enumerate(store[o[1]].messages_abs()):
                     for (j, f, v) in o[2]:
                         if j == idx:
                             if peek:
                                 store[o[1]].rel
                             setattr(m, FIELDS[f], v)
+                    if last is not None and idx >= last:
+                        break
             elif k == "OEditRel":
                 peek = len(o) > 3 and o[3]
+                last = max([j for j, _, _ in o[2]] + [-1]) if len(o) > 4 and o[4] else None
                 for idx, m in enumerate(store[o[1]].messages_rel()):
                     for (j, f, v) in o[2]:
                         if j == idx and not (f == "FTime" and m.message_type != MT.WAIT):
                             if peek:
                                 store[o[1]].abs
                             setattr(m, FIELDS[f], v)
+                    if last is not None and idx >= last:
+                        break
             elif k == "OBarInit":
                 Bar(store[o[1]], o[2], o[3])
             elif k == "OBarCopy":
@@ -1615,6 +1665,10 @@ def mido_of_ev(e):
         return mido.Message("control_change", channel=ch, control=a, value=b, time=dt)
     if k == "pc":
         return mido.Message("program_change", channel=ch, program=a, time=dt)
+    if k == "pw":
+        return mido.Message("pitchwheel", channel=ch, pitch=a, time=dt)
+    if k == "at":
+        return mido.Message("aftertouch", channel=ch, value=a, time=dt)
     return mido.MetaMessage("marker", text="m", time=dt)
 
 
@@ -1624,7 +1678,7 @@ def show_ev(e):
 
 def lit_ev(e):
     k, ch, a, b, key, dt = e
-    K = {"on": "MOn", "off": "MOff", "ts": "MTs", "ks": "MKs", "cc": "MCc", "pc": "MPc", "x": "MOther"}[k]
+    K = {"on": "MOn", "off": "MOff", "ts": "MTs", "ks": "MKs", "cc": "MCc", "pc": "MPc", "x": "MOther", "pw": "MOther", "at": "MOther"}[k]
     return f"ev {K} {z(ch)} {z(a)} {z(b)} {lit_str(key)} {z(dt)}"
 
 
@@ -1642,7 +1696,8 @@ Op("midi_events", lambda r: G.gen_rel_wf(r) if r.random() < 0.7 else G.gen_rel_m
    lambda ms: f"show_mevs (to_events {lit_msgs(ms)})", lambda ms: len(ms) > 2)
 
 
-def gen_midi_file(r, dyadic=True):
+def gen_midi_file(r, dyadic=None):
+    dyadic = (r.random() < 0.7) if dyadic is None else dyadic
     tpb = r.choice([24, 48, 96, 12, 6, 192, 384, 3, 16, 8, 24, 48] if dyadic else [480, 960, 120, 100, 7, 1000, 36, 72, 5])
     ntr = r.choice([1, 2, 2, 3, 4])
     tracks = []
@@ -1668,8 +1723,10 @@ def gen_midi_file(r, dyadic=True):
                 evs.append(("cc", ch, 64, r.choice([0, 127]), "", dt))
             elif x < 0.96:
                 evs.append(("pc", ch, r.randint(0, 5), 0, "", dt))
-            else:
+            elif x < 0.98:
                 evs.append(("x", -1, 0, 0, "", dt))
+            else:       # channel messages the library has no representation for: their delta time still counts
+                evs.append(("pw", ch, r.choice([0, 100, -200]), 0, "", dt) if r.random() < 0.5 else ("at", ch, r.choice([0, 64]), 0, "", dt))
         for ch, n in open_:
             if r.random() < 0.8:
                 evs.append(("off", ch, n, 0, "", r.choice([unit, 1, 0])))
